@@ -89,6 +89,44 @@ def reference(ctx, kex):
         lab.close()
 
 
+MARKERS = ("first", "middle", "last", "twice")
+
+
+def odd_marker(t, pos, log=None):
+    """Make transport `t` (the victim's *peer*) list its kex-strict marker at another position of the
+    kex_algorithms name-list: first, middle, last, or twice (first and last).  The KEXINIT is rewritten
+    before it is sent *and* in the copy the sender keeps for the exchange hash, so the handshake stays
+    consistent; the order of the real algorithm names is unchanged."""
+    orig = t._send_message
+
+    def send(m, _o=orig):
+        raw = m.asbytes()
+        if raw[:1] == b"\x14":
+            (first,), _rest = kexlab.sshsig.read_strings(raw[17:], 1)
+            names = first.decode().split(",")
+            marks = [n for n in names if n.startswith("kex-strict-")]
+            if marks:
+                rest = [n for n in names if not n.startswith("kex-strict-")]
+                mk = marks[0]
+                if pos == "first":
+                    new = [mk] + rest
+                elif pos == "middle":
+                    h = max(1, len(rest) // 2)
+                    new = rest[:h] + [mk] + rest[h:]
+                elif pos == "last":
+                    new = rest + [mk]
+                else:
+                    new = [mk] + rest + [mk]
+                raw2 = raw[:17] + kexlab.sshsig.s(",".join(new)) + raw[17 + 4 + len(first):]
+                t.local_kex_init = t._latest_kex_init = raw2
+                if log is not None:
+                    log.append(new)
+                return _o(Message(raw2))
+        return _o(m)
+
+    t._send_message = send
+
+
 def victim_of(lab, role):
     return (lab.tc, "c", "ba") if role == "client" else (lab.ts, "s", "ab")
 
@@ -163,16 +201,19 @@ def still_usable(lab, timeout):
 
 
 # ---- stratum 1: injection at every position ---------------------------------------------------------
-def inject_case(ctx, kex, role, k, ptype, strict_c, strict_s, hostalg, sample, drop_enc=None, mode=None):
+def inject_case(ctx, kex, role, k, ptype, strict_c, strict_s, hostalg, sample, drop_enc=None, mode=None, marker=None):
     rng = ctx.rng
     both = strict_c and strict_s
-    stratum = "terrapin" if drop_enc is not None else "inject"
+    stratum = "terrapin" if drop_enc is not None else ("inject-marker" if marker else "inject")
     desc = dict(stratum=stratum, kex=kex, victim=role, position=k, injected=TYPE_NAME[ptype], strict_client=strict_c,
-                strict_server=strict_s, drop_encrypted=drop_enc, mode=mode)
-    fp = (stratum, kex, role, k, ptype, strict_c, strict_s, drop_enc, mode)
+                strict_server=strict_s, drop_encrypted=drop_enc, mode=mode, peer_marker_position=marker)
+    fp = (stratum, kex, role, k, ptype, strict_c, strict_s, drop_enc, mode, marker)
     lab = kexlab.Lab(rng, kex, hostalg, strict_c=strict_c, strict_s=strict_s, with_mitm=True)
     set_mode(lab, mode)
     vt, vside, d = victim_of(lab, role)
+    mlog = []
+    if marker:
+        odd_marker(lab.ts if role == "client" else lab.tc, marker, mlog)
     fixed = payload_for(ptype, None)
     if ptype == 20:
         # a second KEXINIT: replay of the sender's own first packet
@@ -224,6 +265,12 @@ def inject_case(ctx, kex, role, k, ptype, strict_c, strict_s, hostalg, sample, d
                 ctx.note("nonstrict_unexpected_exception", dict(case=desc, exc=repr(vt.saved_exception)))
             return
         ctx.count("strict.injections_judged")
+        if marker:
+            if not mlog:
+                ctx.inconclusive("the peer's KEXINIT was not rewritten: %r" % desc)
+                return
+            ctx.count("marker.injections_judged")
+            ctx.count("marker.%s.injections_judged" % marker)
         if not decided:
             ctx.inconclusive("victim neither died nor read on within 40 s: %r" % desc)
             return
@@ -323,15 +370,19 @@ def rekey(lab, who, timeout=60):
     return None
 
 
-def honest_case(ctx, kex, strict_c, strict_s, nrekeys, hostalg, sample, mode=None):
+def honest_case(ctx, kex, strict_c, strict_s, nrekeys, hostalg, sample, mode=None, marker=None):
+    """marker = (side whose KEXINIT is rewritten, position) or None."""
     rng = ctx.rng
     both = strict_c and strict_s
     inits = [rng.choice("cs") for _ in range(nrekeys)]
     desc = dict(stratum="honest", kex=kex, strict_client=strict_c, strict_server=strict_s, rekeys=nrekeys,
-                initiators="".join(inits), mode=mode)
-    ctx.case(("honest", kex, strict_c, strict_s, nrekeys, tuple(inits), mode), sample=desc if sample else None)
+                initiators="".join(inits), mode=mode, odd_marker=marker)
+    ctx.case(("honest", kex, strict_c, strict_s, nrekeys, tuple(inits), mode, marker), sample=desc if sample else None)
     lab = kexlab.Lab(rng, kex, hostalg, strict_c=strict_c, strict_s=strict_s)
     set_mode(lab, mode)
+    if marker:
+        odd_marker(lab.tc if marker[0] == "c" else lab.ts, marker[1])
+        ctx.count("marker.honest_sessions")
     failed = None
     try:
         if not lab.start(timeout=60):
@@ -506,6 +557,20 @@ def run(ctx):
                         if not mine():
                             continue
                         drop_case(ctx, kex, role, j, kexlab.HOSTALGS[(ki + j) % 7], samp("delete"), mode=mode)
+                # -- peer lists its strict marker first / in the middle / last / twice -----------------------
+                for mi, mpos in enumerate(MARKERS):
+                    for k in range(npos):
+                        for ti, ptype in enumerate(TYPES):
+                            # quick: all positions x types for "first" on a rotating third of the kex methods, two
+                            # cases per (kex, role, marker) otherwise; thorough: everything
+                            if ctx.quick:
+                                full = mpos == "first" and (ki + ri + ctx.seed) % 3 == 0
+                                if not full and (k * len(TYPES) + ti) % (npos * len(TYPES) // 2 + 1) != (ki + mi + ri + ctx.seed) % 3:
+                                    continue
+                            if not mine():
+                                continue
+                            inject_case(ctx, kex, role, k, ptype, True, True, kexlab.HOSTALGS[(ki + mi + k) % 7], False,
+                                        marker=mpos)
                 # -- control ----------------------------------------------------------------------------------
                 if mine():
                     rekey_ignore_control(ctx, kex, role, kexlab.HOSTALGS[(ki + ri) % 7], samp("control"))
@@ -521,6 +586,20 @@ def run(ctx):
                         if not mine():
                             continue
                         honest_case(ctx, kex, sc, ss, nre, kexlab.HOSTALGS[(ki + nre) % 7], samp("honest"), mode=mode)
+            for mi, mpos in enumerate(MARKERS):
+                for side in "cs":
+                    if ctx.quick and (mi + ki + ctx.seed + (side == "s")) % 2:
+                        continue
+                    if not mine():
+                        continue
+                    honest_case(ctx, kex, True, True, 1 + (ki + mi) % 2, kexlab.HOSTALGS[(ki + mi) % 7], False,
+                                mode=MODES[(ki + mi) % 5], marker=(side, mpos))
+    ctx.require("marker.injections_judged", 120)
+    ctx.require("marker.first.injections_judged", 40)
+    ctx.require("marker.middle.injections_judged", 20)
+    ctx.require("marker.last.injections_judged", 20)
+    ctx.require("marker.twice.injections_judged", 20)
+    ctx.require("marker.honest_sessions", 20)
     ctx.require("strict.injections_judged", 250)
     ctx.require("strict.terminated", 200)
     ctx.require("injections_delivered.IGNORE", 40)
